@@ -1,3 +1,4 @@
+mod apifz;
 mod call;
 mod dump;
 mod exec;
@@ -10,7 +11,7 @@ mod tap;
 use std::io::Write;
 
 fn usage() -> ! {
-    eprintln!("usage: mtharness tables | gen <prop> <tier> <seed> <out> | exec <sessions> <log> | meta <prop> <tier> <seed> <out> | seeds <sessions> <outdir> [max]");
+    eprintln!("usage: mtharness tables | gen <prop> <tier> <seed> <out> | exec <sessions> <log> | meta <prop> <tier> <seed> <out> | seeds <sessions> <outdir> [max] | apisess <dir>... <out>");
     std::process::exit(2)
 }
 
@@ -86,6 +87,60 @@ fn main() {
                     if n >= max {
                         break 'outer;
                     }
+                }
+            }
+            eprintln!("{}", n);
+        }
+        "apiseeds" => {
+            if a.len() < 4 {
+                usage();
+            }
+            let text = std::fs::read_to_string(&a[2]).unwrap();
+            let sessions = exec::Session::parse_all(&text).unwrap_or_default();
+            let max: usize = a.get(4).and_then(|x| x.parse().ok()).unwrap_or(usize::MAX);
+            std::fs::create_dir_all(&a[3]).unwrap();
+            let mut n = 0usize;
+            let mut seen = std::collections::HashSet::new();
+            'outer: for s in &sessions {
+                for b in seeds::api_seeds_of(s) {
+                    if b.len() < 3 || b.len() > 2048 || !seen.insert(b.clone()) {
+                        continue;
+                    }
+                    std::fs::write(format!("{}/a{:06}", a[3], n), &b).unwrap();
+                    n += 1;
+                    if n >= max {
+                        break 'outer;
+                    }
+                }
+            }
+            eprintln!("{}", n);
+        }
+        "apisess" => {
+            // apisess <dir-or-file>... <out.sessions>: inputs of the API target as sessions
+            if a.len() < 4 {
+                usage();
+            }
+            let outp = &a[a.len() - 1];
+            let mut files: Vec<std::path::PathBuf> = vec![];
+            for x in &a[2..a.len() - 1] {
+                let p = std::path::Path::new(x);
+                if p.is_dir() {
+                    let mut v: Vec<_> = std::fs::read_dir(p).unwrap().filter_map(|e| e.ok()).map(|e| e.path()).filter(|q| q.is_file()).collect();
+                    v.sort();
+                    files.extend(v);
+                } else if p.is_file() {
+                    files.push(p.to_path_buf());
+                }
+            }
+            let mut f = std::io::BufWriter::new(std::fs::File::create(outp).unwrap());
+            let mut n = 0;
+            for (k, p) in files.iter().enumerate() {
+                let data = std::fs::read(p).unwrap_or_default();
+                let name = p.file_name().map(|x| x.to_string_lossy().to_string()).unwrap_or_default();
+                let id = format!("fa{}_{}", k, &name[..name.len().min(12)]);
+                if let Some(t) = apifz::session_text(&data, &id) {
+                    f.write_all(t.as_bytes()).unwrap();
+                    n += 1;
                 }
             }
             eprintln!("{}", n);
